@@ -6,5 +6,5 @@ CONSTANTS
   MaxId = 2
   MaxMapEntries = 1
   Emit = FALSE
-INVARIANTS TypeOK LongNotShorter EndsWithStop FieldsAscending
+INVARIANTS TypeOK LongNotShorter EndsWithStop FieldsAscending RevInvolution RevSameLength
 CHECK_DEADLOCK FALSE
